@@ -126,7 +126,7 @@ func basmText(p basmProg) (src string, outMap []int, ok bool) {
 			if i == p.Epos && !p.Lbd {
 				fmt.Fprintf(&sb, "\tentry L%d\n", p.Entry)
 			}
-			if target[i] {
+			if target[i] && l.Op != "asend" {
 				fmt.Fprintf(&sb, "L%d:\n", i)
 			}
 			if i == p.Epos && p.Lbd {
@@ -149,6 +149,13 @@ func basmText(p basmProg) (src string, outMap []int, ok bool) {
 				fmt.Fprintf(&sb, "\tj L%d\n", l.T)
 			case "jz":
 				fmt.Fprintf(&sb, "\tjz r%d, L%d\n", l.A, l.T)
+			case "asend":
+				// the label line of this instruction carries the metadata (and is the jump target, if it is one)
+				name := fmt.Sprintf("A%d", i)
+				if target[i] {
+					name = fmt.Sprintf("L%d", i)
+				}
+				fmt.Fprintf(&sb, "%s: iomode:async\n\tmov o%d, r%d\n", name, l.A, l.B)
 			case "send":
 				fmt.Fprintf(&sb, "\tmov o%d, r%d\n", l.A, l.B)
 			case "recv":
@@ -278,14 +285,17 @@ func genBasmProgramsData(r *evid.Run, scratch string, rsize, len0, budget, ncp, 
 // basmGenWide: the generated data variables hold several words and repetitions (BasmSem.WideData).
 var basmGenWide bool
 
+// basmGenAsync: the generated programs contain sends whose label line says iomode:async (BasmSem.WithAsync).
+var basmGenAsync bool
+
 // genBasmProgramsOpt: smallMov restricts literal loads to `mov` of numbers below 32.
 func genBasmProgramsOpt(r *evid.Run, scratch string, rsize, len0, budget, ncp, ndata int, entryAny, dirAny, macroHeavy, smallMov bool, n int, seed int64) (progs []basmProg, transitions int64, ok bool) {
 	nout := 2
-	dir := filepath.Join(scratch, fmt.Sprintf("g_%d_%d_%d_%d_%v_%v_%v_%v_%v", rsize, len0, ncp, ndata, entryAny, dirAny, macroHeavy, smallMov, basmGenWide))
+	dir := filepath.Join(scratch, fmt.Sprintf("g_%d_%d_%d_%d_%v_%v_%v_%v_%v_%v", rsize, len0, ncp, ndata, entryAny, dirAny, macroHeavy, smallMov, basmGenWide, basmGenAsync))
 	os.MkdirAll(dir, 0o755)
 	up := func(b bool) string { return strings.ToUpper(fmt.Sprint(b)) }
-	cfg := fmt.Sprintf("SPECIFICATION Spec\nCONSTANTS\n RSize = %d\n Len0 = %d\n Budget = %d\n NOut = %d\n NCP = %d\n NData = %d\n EntryAnywhere = %s\n DirectiveAnywhere = %s\n MacroHeavy = %s\n SmallMovOnly = %s\n WideData = %s\nINVARIANT TypeOK\nCHECK_DEADLOCK FALSE\n",
-		rsize, len0, budget, nout, ncp, ndata, up(entryAny), up(dirAny), up(macroHeavy), up(smallMov), up(basmGenWide))
+	cfg := fmt.Sprintf("SPECIFICATION Spec\nCONSTANTS\n RSize = %d\n Len0 = %d\n Budget = %d\n NOut = %d\n NCP = %d\n NData = %d\n EntryAnywhere = %s\n DirectiveAnywhere = %s\n MacroHeavy = %s\n SmallMovOnly = %s\n WideData = %s\n WithAsync = %s\nINVARIANT TypeOK\nCHECK_DEADLOCK FALSE\n",
+		rsize, len0, budget, nout, ncp, ndata, up(entryAny), up(dirAny), up(macroHeavy), up(smallMov), up(basmGenWide), up(basmGenAsync))
 	res, err := tlc.Run(tlc.Options{SpecDir: specDir, Module: "BasmSem", CfgText: cfg, Workers: 1, Timeout: 20 * time.Minute,
 		Args: []string{"-simulate", fmt.Sprintf("file=%s/b,num=%d", dir, n), "-depth", strconv.Itoa(ncp*(len0+1) + budget + 2), "-seed", strconv.FormatInt(seed, 10)}})
 	if err != nil {
@@ -398,6 +408,18 @@ func runC05(r *evid.Run) {
 		transitions += tr
 	}
 	basmGenWide = false
+	// sends annotated for one line only (`X: iomode:async`) between synchronous ones
+	basmGenAsync = true
+	for i, a := range []struct{ rsize, ncp, n int }{{8, 1, r.Pick(50, 400)}, {16, 2, r.Pick(30, 300)}} {
+		ps, tr, ok := genBasmPrograms(r, scratch, a.rsize, 8, 50, a.ncp, false, false, false, a.n, r.Seed*7+40+int64(i))
+		if !ok {
+			basmGenAsync = false
+			return
+		}
+		progs = append(progs, ps...)
+		transitions += tr
+	}
+	basmGenAsync = false
 	// long programs whose literals are all small `mov`s: the short load instruction the assembler
 	// chooses is narrower than the jumps
 	{
